@@ -123,6 +123,25 @@ def retrieval_lines(tier, rng):
                         if ok2:
                             for sel in ('[]', '[1,0]', '[0,1,1]'):
                                 lines.append('mtag_data [%d] %s %s 1 %s %s %s %s' % (n, dims, lst([f64(pf), f64(p2)]), lst([f64(ef), f64(ef)]), lst([S(req_unit)]), sel, rm))
+    # one-sided slices (only a start, or only an end) in a scaled unit on an axis that does not start at 0: the bound that is filled
+    # in from the axis is already in the axis unit and must not be rescaled with the given one
+    for base in ('s', 'V'):
+        for d in (2.0 ** -10, 0.25, 1.0):
+            for pa, pr in (('m', ''), ('u', 'm'), ('', 'k'), ('m', 'k'), ('n', 'u')):
+                k = SI_EXP[pr] - SI_EXP[pa]
+                si = d * 10.0 ** k
+                if Fraction(si) != Fraction(d) * Fraction(10) ** k: continue
+                for o in (3, 64):
+                    off_req, off_axis = o * d, o * si
+                    i = rng.randrange(1, n - 2)
+                    c_req, c_axis = off_req + i * d, off_axis + i * si
+                    if not (Fraction(off_axis) == Fraction(off_req) * Fraction(10) ** k and Fraction(c_req) == Fraction(off_req) + i * Fraction(d)
+                            and Fraction(c_req * 10.0 ** k) == Fraction(c_req) * Fraction(10) ** k == Fraction(c_axis)): continue
+                    dims = '[S:%s:%s:%s]' % (f64(si), f64(off_axis), S(pa + base))
+                    for rm in ('incl', 'excl'):
+                        lines.append('slice [%d] %s [] %s %s %s' % (n, dims, lst([f64(c_req)]), lst([S(pr + base)]), rm))
+                        lines.append('slice [%d] %s %s [] %s %s' % (n, dims, lst([f64(c_req)]), lst([S(pr + base)]), rm))
+                        lines.append('slice [%d] %s [] %s %s %s' % (n, dims, lst([f64(c_axis)]), lst([S(pa + base)]), rm))
     if tier == 'quick' and len(lines) > 3600:
         lines = lines[::max(1, len(lines) // 3600)]
     return lines
